@@ -20,7 +20,7 @@ EXHAUSTIVE_SUBDOMAINS = ["UF x RR x DI x RRS (131072 cells)", "UF11: PR x CL x I
                          "DI in {0,1,7} x IIS x LOS and DI=3 x SIS x LSS for UF 4/5/20/21"]
 ASSUMPTIONS = ["for DI values other than 0,1,3,7 only UF, BDS1 and the agreement of uplink_fields() with the single-field "
                "functions are judged (the SD sub-fields for those DI codes are not asserted from memory)"]
-REQUIRED = ["fields_redecode_after_caller_edit", "data_is_multiple_of_generator", "addr56", "addr112", "uf11", "rollcall", "other_uf", "di0", "di1", "di3", "di7", "di_other", "rr_low", "rr_high",
+REQUIRED = ["fields_redecode_after_caller_edit", "data_is_multiple_of_generator", "running_remainder_long_run_of_ones", "addr56", "addr112", "uf11", "rollcall", "other_uf", "di0", "di1", "di3", "di7", "di_other", "rr_low", "rr_high",
             "fields_agree"]
 
 
@@ -43,6 +43,8 @@ def m_addr(ctx, case):
     ctx.hit("addr%d" % n)
     if case.get("genmult"):
         ctx.hit("data_is_multiple_of_generator")
+    if case.get("runrem"):
+        ctx.hit("running_remainder_long_run_of_ones")
     ctx.nontrivial(("ua", hx))
     if ctx.rng.random() < 0.0005:
         ctx.sample({"interrogation": hx, "address": "%06X" % addr})
@@ -208,6 +210,13 @@ def cases(ctx):
                     if ctx.mine(i):
                         yield "addr", {"n": n, "addr": a, "data": "%X" % d, "lower": (sh + m_) % 3 == 0, "genmult": 1}
                     i += 1
+    # frames whose running remainder becomes a leading one followed by 45+ ones half-way through the division
+    for k in range(ctx.share(6000 if quick else 200000)):
+        n = rng.choice((56, 112, 112))
+        F = bits.frame_with_run_remainder(rng, n)
+        data, ap = F >> 24, F & 0xFFFFFF
+        a = bits.uplink_overlay_inverse(ap ^ bits.parity(data, n))
+        yield "addr", {"n": n, "addr": a, "data": "%X" % data, "lower": k % 4 == 0, "runrem": 1}
     for k in range(ctx.share(100000 if quick else 4000000)):
         n = rng.choice((56, 112))
         yield "addr", {"n": n, "addr": rng.fill(24), "data": "%X" % rng.fill(n - 24), "lower": k % 4 == 0}
